@@ -7,7 +7,7 @@ use ckb_types::{
     packed,
     prelude::*,
     utilities::{
-        compact_to_difficulty, difficulty_to_compact,
+        compact_to_difficulty, difficulty_to_compact, merkle_root,
         merkle_mountain_range::{HeaderDigest as _, MergeHeaderDigest, VerifiableHeader},
     },
     U256,
@@ -37,6 +37,15 @@ pub(crate) struct SynChain {
     pub salt: u64,
     /// MMR activation epoch: headers up to and including the first block of this epoch carry no chain root
     pub act: u64,
+    /// transactions of each block (empty for the header-only chains; then the transactions root is a salted placeholder)
+    pub bodies: Vec<Vec<packed::Transaction>>,
+}
+
+/// the transactions root a header must commit to for this body
+pub(crate) fn transactions_root(txs: &[packed::Transaction]) -> packed::Byte32 {
+    let raw: Vec<packed::Byte32> = txs.iter().map(|t| t.calc_tx_hash()).collect();
+    let wit: Vec<packed::Byte32> = txs.iter().map(|t| t.calc_witness_hash()).collect();
+    merkle_root(&[merkle_root(&raw), merkle_root(&wit)])
 }
 
 /// A tau-legal epoch plan: epoch difficulty moves by at most a factor two per epoch.
@@ -109,20 +118,21 @@ pub(crate) fn plan_blocks(plan: &[EpochPlan]) -> u64 {
     plan.iter().map(|e| e.len).sum()
 }
 
-fn build_header(number: u64, epoch: (u64, u64, u64, u32), parent_hash: packed::Byte32, ext: Option<&packed::Bytes>, timestamp: u64, salt: u64) -> HeaderView {
+fn build_header(number: u64, epoch: (u64, u64, u64, u32), parent_hash: packed::Byte32, ext: Option<&packed::Bytes>, timestamp: u64, salt: u64, body: &[packed::Transaction]) -> HeaderView {
     let uncles_hash = packed::Byte32::zero();
     let extra_hash = ExtraHashView::new(uncles_hash, ext.map(|e| e.calc_raw_data_hash())).extra_hash();
     let ep = EpochNumberWithFraction::new_unchecked(epoch.0, epoch.1, epoch.2);
     let mut txroot = [0u8; 32];
     txroot[..8].copy_from_slice(&salt.to_le_bytes());
     txroot[8..16].copy_from_slice(&number.to_le_bytes());
+    let txroot: packed::Byte32 = if body.is_empty() { txroot.pack() } else { transactions_root(body) };
     let raw = packed::RawHeader::new_builder()
         .compact_target(epoch.3.pack())
         .timestamp(timestamp.pack())
         .number(number.pack())
         .epoch(ep.full_value().pack())
         .parent_hash(parent_hash)
-        .transactions_root(txroot.pack())
+        .transactions_root(txroot)
         .extra_hash(extra_hash)
         .build();
     packed::Header::new_builder().raw(raw).build().into_view()
@@ -135,8 +145,15 @@ impl SynChain {
     }
 
     pub(crate) fn new_with_activation(plan: Vec<EpochPlan>, len: u64, salt: u64, act: u64) -> SynChain {
-        let mut c = SynChain { headers: Vec::new(), roots: Vec::new(), tds: Vec::new(), store: Store::default(), plan, salt, act };
+        let mut c = SynChain { headers: Vec::new(), roots: Vec::new(), tds: Vec::new(), store: Store::default(), plan, salt, act, bodies: Vec::new() };
         c.grow(len, salt, 0);
+        c
+    }
+
+    /// like `new`, every block (genesis excepted) carrying the transactions `gen` produces for it
+    pub(crate) fn new_with_bodies(plan: Vec<EpochPlan>, len: u64, salt: u64, act: u64, gen: &mut dyn FnMut(u64) -> Vec<packed::Transaction>) -> SynChain {
+        let mut c = SynChain { headers: Vec::new(), roots: Vec::new(), tds: Vec::new(), store: Store::default(), plan, salt, act, bodies: Vec::new() };
+        c.grow_with(len, salt, 0, gen);
         c
     }
 
@@ -160,6 +177,10 @@ impl SynChain {
 
     /// append blocks until the chain has `len` blocks; the tip gets timestamp T0 - age_ms
     pub(crate) fn grow(&mut self, len: u64, salt: u64, tip_age_ms: u64) {
+        self.grow_with(len, salt, tip_age_ms, &mut |_| Vec::new())
+    }
+
+    pub(crate) fn grow_with(&mut self, len: u64, salt: u64, tip_age_ms: u64, gen: &mut dyn FnMut(u64) -> Vec<packed::Transaction>) {
         let mut mmr_size = if self.headers.is_empty() { 0 } else { leaf_index_to_mmr_size(self.len() - 1) };
         while self.len() < len {
             let number = self.len();
@@ -172,7 +193,9 @@ impl SynChain {
             };
             let ext: Option<packed::Bytes> = if !self.has_root(number) { None } else { Some(root.calc_mmr_hash().as_bytes().pack()) };
             let timestamp = T0 - tip_age_ms - (len - 1 - number) * 8_000;
-            let header = build_header(number, ep, parent_hash, ext.as_ref(), timestamp, salt);
+            let body = if number == 0 { Vec::new() } else { gen(number) };
+            let header = build_header(number, ep, parent_hash, ext.as_ref(), timestamp, salt, &body);
+            self.bodies.push(body);
             let bd = compact_to_difficulty(ep.3);
             let td = if number == 0 { bd } else { &self.tds[number as usize - 1] + bd };
             {
@@ -189,7 +212,11 @@ impl SynChain {
 
     /// a new chain sharing blocks 0..=at with this one, then `extra` different blocks
     pub(crate) fn fork(&self, at: u64, extra: u64, salt: u64, plan: Option<Vec<EpochPlan>>) -> SynChain {
-        let mut c = SynChain { headers: Vec::new(), roots: Vec::new(), tds: Vec::new(), store: Store::default(), plan: plan.unwrap_or_else(|| self.plan.clone()), salt, act: self.act };
+        self.fork_with(at, extra, salt, plan, &mut |_| Vec::new())
+    }
+
+    pub(crate) fn fork_with(&self, at: u64, extra: u64, salt: u64, plan: Option<Vec<EpochPlan>>, gen: &mut dyn FnMut(u64) -> Vec<packed::Transaction>) -> SynChain {
+        let mut c = SynChain { headers: Vec::new(), roots: Vec::new(), tds: Vec::new(), store: Store::default(), plan: plan.unwrap_or_else(|| self.plan.clone()), salt, act: self.act, bodies: Vec::new() };
         let mut mmr_size = 0;
         for i in 0..=at as usize {
             let mut mmr: MMR<packed::HeaderDigest, MergeHeaderDigest, &Store> = MMR::new(mmr_size, &c.store);
@@ -199,8 +226,9 @@ impl SynChain {
             c.headers.push(self.headers[i].clone());
             c.roots.push(self.roots[i].clone());
             c.tds.push(self.tds[i].clone());
+            c.bodies.push(self.bodies[i].clone());
         }
-        c.grow(at + 1 + extra, salt, 0);
+        c.grow_with(at + 1 + extra, salt, 0, gen);
         c
     }
 
@@ -233,6 +261,11 @@ impl SynChain {
             .proof_items()
             .to_owned()
             .pack()
+    }
+
+    /// header + transactions of block `number`
+    pub(crate) fn block(&self, number: u64) -> packed::Block {
+        packed::Block::new_builder().header(self.headers[number as usize].data()).transactions(self.bodies[number as usize].clone().pack()).build()
     }
 
     pub(crate) fn genesis_block(&self) -> packed::Block {
